@@ -210,6 +210,14 @@ def tasks_c11(tier, seed):
         ts += explore("ST5-mock", "", 2, timeout="100s") + explore("ST5-badger-prefix", "", 1, timeout="100s")
     else:
         ts += explore("ST5-mock", "", -1, shards=4, timeout="5m") + explore("ST5-badger-prefix", "", 2, shards=4, timeout="5m")
+    # ST6: two writers on different ids and a reader; "badger-split": a scheduling point between every transaction
+    # closure and its commit (own mutation seeded/own/C11-badgerstore-shared-encode-buffer.diff needs that window)
+    if tier == "quick":
+        ts += explore("ST6-mock", "", 1, timeout="100s") + explore("ST6-badger-split", "", 1, timeout="100s")
+        ts += explore("ST2-badger-split", "", 2, timeout="100s")
+    else:
+        ts += explore("ST6-mock", "", 2, shards=4, timeout="10m") + explore("ST6-badger-split", "", 2, shards=8, timeout="10m")
+        ts += explore("ST2-badger-split", "", 3, shards=4, timeout="10m")
     for p in ST_SCENS:
         if tier == "quick":
             ts += explore(p + "-mock", "", 2, timeout="100s")
